@@ -1,6 +1,7 @@
 // C18: rows written through the schema-2.x table API read back as written (track_table, playlist_table, playlist_entity_table).
 #include "common/bigalloc.hpp"
 #include "common/codec_values.hpp"
+#include "common/raw_tables.hpp"
 #include "common/sqlite_shim.hpp"
 
 #include <djinterop/engine/v2/engine_library.hpp>
@@ -275,9 +276,13 @@ static void prop_c18(const vf::Case& c, Ctx& ctx)
     for (size_t rec = 1; rec < c.size(); ++rec)
     {
         S s(c[rec]);
-        int op = static_cast<int>(s.below(10));
+        int op = static_cast<int>(s.below(12));
         if (live.empty())
             op = 0;
+        if (op == 11)
+            op = 10;
+        if (op == 10 && live.size() < 2)
+            op = 1;
         std::string where;
         switch (op)
         {
@@ -406,6 +411,69 @@ static void prop_c18(const vf::Case& c, Ctx& ctx)
                 VF_CHECK(!t.get(id), hist << ": get() still finds the removed row");
                 VF_CHECK(!t.exists(id), hist << ": exists() is true for the removed row");
                 ctx.label("remove");
+                break;
+            }
+            case 10:
+            {
+                // A write to (or next to) row A whose path / origin pair is the one ANOTHER live row B holds.  The table is keyed UNIQUE on both,
+                // so the database refuses the statement: whether the call throws (nothing changes) or goes through (A reads back as written),
+                // "a setter changes that column only" and "a row reads back as written" mean that B is still there, unchanged.
+                size_t i = s.below(live.size());
+                size_t j = (i + 1 + s.below(live.size() - 1)) % live.size();
+                Live& a = live[i];
+                const Live b = live[j];
+                bool by_origin = s.below(3) == 0;
+                int how = static_cast<int>(s.below(3));   // 0 add(), 1 update(A), 2 per-column setter on A
+                row_t x = how == 0 ? gen_row(s, ctx, d, ++serial) : a.row;
+                x.id = how == 0 ? v2::TRACK_ROW_ID_NONE : a.id;
+                if (by_origin)
+                {
+                    x.origin_database_uuid = b.row.origin_database_uuid;
+                    x.origin_track_id = b.row.origin_track_id;
+                }
+                else
+                    x.path = b.row.path;
+                hist += std::string(" | colliding ") + (how == 0 ? "add" : how == 1 ? "update" : "set") + "(" + (by_origin ? "origin pair" : "path") + " of " +
+                        std::to_string(b.id) + (how == 0 ? "" : " onto " + std::to_string(a.id)) + ")";
+                bool threw = false;
+                int64_t new_id = 0;
+                try
+                {
+                    if (how == 0)
+                        new_id = t.add(x);
+                    else if (how == 1)
+                        t.update(x);
+                    else if (by_origin)
+                    {
+                        // two calls; the first one alone may already collide or not, the pair certainly does
+                        t.set_origin_database_uuid(a.id, x.origin_database_uuid);
+                        a.row.origin_database_uuid = x.origin_database_uuid;
+                        t.set_origin_track_id(a.id, x.origin_track_id);
+                    }
+                    else
+                        t.set_path(a.id, x.path);
+                }
+                catch (const std::exception&)
+                {
+                    threw = true;
+                }
+                hist += threw ? "=rejected" : "=accepted";
+                ctx.label(threw ? "collision:rejected" : "collision:accepted");
+                ctx.label(std::string("collision:") + (how == 0 ? "add" : how == 1 ? "update" : "set") + (by_origin ? ":origin" : ":path"));
+                if (!threw)
+                {
+                    if (how == 0 && x.origin_database_uuid.empty() && x.origin_track_id == 0)
+                    {
+                        x.origin_database_uuid = uuid;
+                        x.origin_track_id = new_id;
+                    }
+                    if (how == 0)
+                        live.push_back(Live{new_id, x});
+                    else
+                        live[i].row = x;
+                }
+                // B first, by name, for a clear message; every row and the id list are compared below as after every step
+                VF_CHECK(t.exists(b.id) && t.get(b.id).has_value(), hist << ": row " << b.id << ", which the call did not name, is gone");
                 break;
             }
             default:
@@ -1331,6 +1399,8 @@ static void prop_c14_table(const vf::Case& c, Ctx& ctx)
         auto w = build_tstate(schema, c, ctx);
         std::vector<int64_t> probe = w->tids;
         std::string before = observe_tables(w->lib, schema, probe, false, 1000000);
+        sqlite3* conn_before = sh.last_db;
+        std::string raw_before = conn_before ? vfraw::raw_tables(conn_before) : std::string();
         bool threw = false;
         vfshim::arm(k);
         table_mutation(*w, schema, m, S(oprec), ctx, threw);
@@ -1343,6 +1413,13 @@ static void prop_c14_table(const vf::Case& c, Ctx& ctx)
         std::string after = observe_tables(w->lib, schema, probe, false, 1000000);
         VF_CHECK(before == after, where << ": observable state changed although the call failed: " << first_diff(before, after));
         VF_CHECK(!conn || sqlite3_get_autocommit(conn) != 0, where << ": a transaction was left open");
+        if (conn && conn == conn_before)
+        {
+            // the stored tables themselves, through an independent reader
+            std::string raw_after = vfraw::raw_tables(conn);
+            VF_CHECK(raw_before == raw_after, where << ": the stored tables changed although the call failed: " << first_diff(raw_before, raw_after));
+            ctx.label("raw-tables-compared");
+        }
         bool threw2 = false;
         std::string d3 = table_mutation(*w, schema, m, S(oprec), ctx, threw2);
         VF_CHECK(!threw2, where << ": after the failed call the same operation no longer succeeds: " << d3);
@@ -1358,6 +1435,8 @@ static void prop_c14_table(const vf::Case& c, Ctx& ctx)
         auto w = build_tstate(schema, c, ctx);
         std::vector<int64_t> probe = w->tids;
         std::string before = observe_tables(w->lib, schema, probe, false, 1000000);
+        sqlite3* conn_before = sh.last_db;
+        std::string raw_before = conn_before ? vfraw::raw_tables(conn_before) : std::string();
         bool threw = false;
         vfshim::arm(k, true);
         table_mutation(*w, schema, m, S(oprec), ctx, threw);
@@ -1370,6 +1449,13 @@ static void prop_c14_table(const vf::Case& c, Ctx& ctx)
         std::string after = observe_tables(w->lib, schema, probe, false, 1000000);
         VF_CHECK(before == after, where << ": observable state changed although the call failed: " << first_diff(before, after));
         VF_CHECK(!conn || sqlite3_get_autocommit(conn) != 0, where << ": a transaction was left open");
+        if (conn && conn == conn_before)
+        {
+            // the stored tables themselves, through an independent reader
+            std::string raw_after = vfraw::raw_tables(conn);
+            VF_CHECK(raw_before == raw_after, where << ": the stored tables changed although the call failed: " << first_diff(raw_before, raw_after));
+            ctx.label("raw-tables-compared");
+        }
         bool threw2 = false;
         std::string d3 = table_mutation(*w, schema, m, S(oprec), ctx, threw2);
         VF_CHECK(!threw2, where << ": after the failed call the same operation no longer succeeds: " << d3);
